@@ -143,6 +143,18 @@ static void run_type(uint64_t seed)
             c[i] = Gen<T>::get(rng, mk, cc[i]);
             rr[i] = (T)((int)(rng.next() % 9) - 4) + ((rng.next() & 1) ? (T)0.5 : (T)0);
         }
+        if (it == 1)
+        { // fixed probes of the open findings F24 / F25a / F25b, so that they are observed whatever the seed
+            a[0] = C((T)-4, (T)-0.0);
+            ca[0] = 4;
+            a[N - 1] = C((T)1.5717963267948966, (T)0);   // pi/2 + 1e-3: real-axis pole of tan
+            ca[N - 1] = 0;
+        }
+        if (it == 4)
+        {
+            a[0] = C((T)0, (T)1.5717963267948966);        // i*(pi/2 + 1e-3): imaginary-axis pole of tanh
+            ca[0] = 2;
+        }
         mark_case("complex_ops", tname<T>(), a, sizeof a);
         B va = B::load_unaligned(a), vb = B::load_unaligned(b), vc = B::load_unaligned(c);
         RB vr = RB::load_aligned(rr);
